@@ -971,7 +971,11 @@ def _m_setter(ctx, R):
             if pop_facts is not None:
                 ports_eq = any(re.match(r"eq\(len\((.+)\.ports\),len\((.+)\.ports\)\)$", a) for a in pop_facts)
                 pins_eq = any(a.startswith("truthy(all(") and "len(" in a and ".pins" in a and "zip(" in a for a in pop_facts)
-                shape = ports_eq and pins_eq
+                # the same check written as one comparison of the per-port pin counts: [len(p.pins) for p in A.ports] == [… B.ports]
+                widths_eq = any(re.match(r"eq\(\[len\((\w+)\.pins\) for \1 in (.+)\.ports\],\[len\((\w+)\.pins\) for \3 in (.+)\.ports\]\)$", a)
+                                or re.match(r"eq\((list|tuple)\(\(?len\((\w+)\.pins\) for \2 in (.+)\.ports\)?\),(list|tuple)\(\(?len\((\w+)\.pins\) for \5 in (.+)\.ports\)?\)\)$", a)
+                                for a in pop_facts)
+                shape = (ports_eq and pins_eq) or widths_eq
             if shape:
                 R.ok("M4", "%s re-keys outer pins under the shape check" % f.qualname, f.loc())
             else:
